@@ -29,7 +29,7 @@ CHECKS = {
             "DESIGN.md 6/C01"),
     "C02": ("model_checking",
             "explicit-state exploration of the real evaluator with semantic invariance checked in every visited state against a big-step reference interpreter, plus an exhaustive operand sweep",
-            "All 9 operators and negation on all 361 ordered pairs of 19 boundary integers (beyond 2^64), recursion and mutual recursion for arguments 0..10, Ackermann for small arguments, evaluation-order probes, the terminating examples, every type-directed program and the alias family: the real step relation is followed state by state; in every visited state the reference interpreter (environment-based, big-step, division specified by its identity) started from that state must give the same outcome as from the source program, and the final value must be the prescribed one.",
+            "All 9 operators and negation on all 361 ordered pairs of 19 boundary integers (beyond 2^64), recursion and mutual recursion for arguments 0..10, Ackermann for small arguments, evaluation-order probes, the terminating examples, every arithmetic / comparison sentence over literals up to 9/10 tokens (value of the tree grammar.y assigns), every type-directed program, the alias family and the type-valued groups: the real step relation is followed state by state; in every visited state the reference interpreter (environment-based, big-step, division specified by its identity) started from that state must give the same outcome as from the source program, and the final value must be the prescribed one.",
             "Trusted: reference interpreter. Function-valued results are compared by kind only.",
             "DESIGN.md 6/C02"),
     "C03": ("exploration",
@@ -49,7 +49,7 @@ CHECKS = {
             "DESIGN.md 6/C05"),
     "C06": ("model_checking",
             "explicit-state exploration of the real evaluator with the real unifier/normaliser queried in every state, plus exhaustive term pairs against reference conversion",
-            "For every terminating ground-typed program of the space: normalize_weak_head of the elaborated term must equal the value reached by step*; in each of the first 30 states unify(s,s), unify(s0,s), unify(s_prev,s) must hold and leave the context untouched; the operand sweep is repeated through the normaliser; and for all ordered pairs of the 420/1000 smallest closed hole-free terms of each of 8 types (with stuck-operator terms under binders, multi-member definition groups and implicit/explicit twins of every function and function type in the set) unify(a,b) = unify(b,a) = reference conversion.",
+            "For every terminating ground-typed program of the space: normalize_weak_head of the elaborated term must equal the value reached by step*; in each of the first 30 states unify(s,s), unify(s0,s), unify(s_prev,s) must hold and leave the context untouched; the operand sweep is repeated through the normaliser; and for all ordered pairs of the 420/1000 smallest closed hole-free terms of each of 8 types (with stuck-operator terms under binders, a variable applied to two and three convertible but differently written arguments, multi-member definition groups and implicit/explicit twins of every function and function type in the set) unify(a,b) = unify(b,a) = reference conversion.",
             "Trusted: reference conversion (NbE with fuel; pairs that exhaust it are skipped).",
             "DESIGN.md 6/C06"),
     "C13": ("model_checking",
@@ -64,7 +64,7 @@ CHECKS = {
             "DESIGN.md 6/C15"),
     "C08": ("exploration",
             "bounded exhaustive enumeration of name-instantiated derivation trees against a named scope resolver",
-            "Every derivation tree of grammar.y up to 7/8 tokens (class alphabet) and 11/13 tokens (let and binder slices), with every assignment of a 3-name pool (including `_`, a keyword prefix and a non-ASCII name) to every identifier leaf, is parsed by the real parser and compared with a named scope resolver: predicted faults must be reported with the right kind and identifier, fault-free programs must carry exactly the predicted de Bruijn index at every occurrence. Exhaustive within the bounds.",
+            "Every derivation tree of grammar.y up to 7/8 tokens (class alphabet) and 11/13 tokens (let and binder slices) and 15/17 tokens (a slice of nothing but names, definitions and parentheses: groups nested in definitions and bodies), with every assignment of a 3-name pool (including `_`, a keyword prefix and a non-ASCII name) to every identifier leaf, is parsed by the real parser and compared with a named scope resolver: predicted faults must be reported with the right kind and identifier, fault-free programs must carry exactly the predicted de Bruijn index at every occurrence. Exhaustive within the bounds.",
             "Trusted: the named resolver in engine/src/model/surface.rs (parameter scopes over body/codomain only; a let spine is one group scoping over all annotations, definitions and the body; `_` never binds). Follow-up diagnostic counts are not compared.",
             "DESIGN.md 6/C08"),
     "C11": ("exploration",
@@ -74,12 +74,12 @@ CHECKS = {
             "DESIGN.md 6/C11"),
     "C16": ("exploration",
             "bounded exhaustive enumeration of parser outputs with a print / re-read round trip",
-            "Every sentence of grammar.y up to 5/6 tokens (full alphabet), 7/9 tokens (class alphabet) and 11-17 tokens (eight sub-grammar slices, including every binder form and let groups as binder domains), and every naming of the let / binder slices up to 13 tokens over a small name pool (so printed names must resolve to the same binders), is parsed; the term is printed by gram's Display, re-tokenized and re-parsed in the same scope, and must equal the original up to names of unused function-type parameters and hole identity.",
+            "Every sentence of grammar.y up to 5/6 tokens (full alphabet), 7/9 tokens (class alphabet) and 11-17 tokens (ten sub-grammar slices, including every binder form and let groups as binder domains), and every naming of the let / binder slices up to 13 tokens over a small name pool (so printed names must resolve to the same binders), is parsed; the term is printed by gram's Display, re-tokenized and re-parsed in the same scope, and must equal the original up to names of unused function-type parameters and hole identity.",
             "Trusted: the comparison relation (engine/src/props/c16.rs). One genuine defect is recorded as a known finding (F-PRINT-IMPLICIT-PI, pinned by an existing unit test) with a defect-model classifier.",
             "DESIGN.md 6/C16"),
     "C14": ("exploration",
             "bounded exhaustive enumeration of strings, token sequences, edited sentences and byte files in crash-isolated workers",
-            "Every string up to the C09 bounds, every token sequence up to length 4/5 over all 29 token symbols and 5/6 over a 21-symbol class alphabet (including streams tokenize itself never emits), and every grammar.y sentence up to 5/7 tokens with every single-token deletion, substitution and insertion is pushed through the real tokenize and parse in worker processes with the same 16 MiB stack as the shipped binary; a panic is caught and reported with its message, an abort or watchdog expiry is attributed to the case in flight. The real `gram check` binary is launched on every byte string of length <= 1, byte pairs, invalid-UTF-8 mutations of the examples, an empty / missing file and a directory, and must honour the exit-code / stdout / stderr contract and agree with the in-process pipeline.",
+            "Every string up to the C09 bounds, every token sequence up to length 4/5 over all 29 token symbols and 5/6 over a 21-symbol class alphabet (including streams tokenize itself never emits), and every grammar.y sentence up to 5/7 tokens (and every sentence of six sub-grammar slices up to 9/11 tokens) with every single-token deletion, substitution and insertion is pushed through the real tokenize and parse in worker processes with the same 16 MiB stack as the shipped binary; a panic is caught and reported with its message, an abort or watchdog expiry is attributed to the case in flight. The real `gram check` binary is launched on every byte string of length <= 1, byte pairs, invalid-UTF-8 mutations of the examples, an empty / missing file and a directory, and must honour the exit-code / stdout / stderr contract and agree with the in-process pipeline.",
             "Trusted: the worker supervision (signal handler dumps the case in flight; driver restarts). Token sequences that parse are also type checked in-process unless the reference finds a divergent piece in them (pre-screen); all of `gram check` is driven at process level.",
             "DESIGN.md 6/C14"),
     "C17": ("exploration",
@@ -89,17 +89,17 @@ CHECKS = {
             "DESIGN.md 6/C17"),
     "C07": ("exploration",
             "bounded exhaustive enumeration of token sequences and grammar.y derivation trees against a grammar-derived oracle",
-            "Every token sequence up to length 4 (quick) / 5 (thorough) over all 28 token kinds plus the line-break terminator, and of length 5 / 6 over a 21-symbol class alphabet, is parsed by the real parser and its acceptance compared with membership in the set of sentences enumerated from /repo/grammar.y (read at run time); enumeration also certifies that no sentence has two derivations. Every derivation tree up to 6-7 tokens (full alphabet), 8-9 tokens (class alphabet) and 11-13 tokens (seven sub-grammar slices: application chains, sums, products, mixed arithmetic, let groups, binder forms, if-let) is parsed and the result compared node for node with the tree the derivation specifies (left-folded chains, parentheses honoured). Exhaustive within those bounds.",
+            "Every token sequence up to length 4 (quick) / 5 (thorough) over all 28 token kinds plus the line-break terminator, and of length 5 / 6 over a 21-symbol class alphabet, is parsed by the real parser and its acceptance compared with membership in the set of sentences enumerated from /repo/grammar.y (read at run time); enumeration also certifies that no sentence has two derivations. Every derivation tree up to 6-7 tokens (full alphabet), 8-9 tokens (class alphabet) and 9-19 tokens (ten sub-grammar slices: application chains, sums, products, mixed arithmetic, all comparison operators over arithmetic, let groups, groups of bare names nested in definitions, binder forms, groups in binder domains, if-let) is parsed and the result compared node for node with the tree the derivation specifies (left-folded chains, parentheses honoured). Exhaustive within those bounds.",
             "Trusted: the production-to-node mapping and re-association rule in engine/src/model/surface.rs (transcribed from grammar.y's header and the property), the derivation enumerator (cross-examined on every 97th sequence by an independent span recogniser over the same rules). Identifier spelling is abstracted (binders fresh, uses bound through parse's context parameter).",
             "DESIGN.md 6/C07"),
     "C10": ("model_checking",
             "explicit-state exploration of layout edits (deviation-bounded BFS) plus bounded exhaustive string enumeration against a reference lexer",
-            "States are layouts of grammar.y sentences (a vector of gap fillers); transitions replace one gap's filler from a 17-entry menu of spaces, tabs, line breaks, comments (empty, ASCII, ending in multi-byte characters, at end of file). All states with at most 1 deviation (sentences up to 5/6 tokens) and 2 deviations (up to 4/5 tokens) are visited; in each the real token stream must equal the stream predicted by the line-break rule of C10, and every `;` between an ender and a starter is swapped for separating line breaks / comments with the parse trees compared. In addition every string up to 6/7 fragments over a 12-fragment layout alphabet is compared with the reference lexer.",
+            "States are layouts of grammar.y sentences (a vector of gap fillers); transitions replace one gap's filler from a 17-entry menu of spaces, tabs, line breaks, comments (empty, ASCII, ending in multi-byte characters, at end of file). All states with at most 1 deviation (sentences up to 5/6 tokens, definition-group sentences up to 11/15) and 2 deviations (up to 4/5 tokens, and every sequence of two or three token kinds, grammatical or not - the rule is lexical) are visited; in each the real token stream must equal the stream predicted by the line-break rule of C10, and every `;` between an ender and a starter is swapped for separating line breaks / comments with the parse trees compared. In addition every string up to 6/7 fragments over a 12-fragment layout alphabet is compared with the reference lexer.",
             "Trusted: the ENDERS/STARTERS sets written out from the property text, the reference lexer. The prediction is replayed against the real tokenizer in every state (traces_validated_against_impl).",
             "DESIGN.md 6/C10"),
     "C09": ("exploration",
             "bounded exhaustive enumeration of input strings against a reference lexer",
-            "Every string of at most k fragments over a 44-fragment alphabet chosen from the case analysis of the tokenizer (plus de Bruijn texts with every fragment triple) is tokenized by the real code and compared token-for-token, range-for-range and diagnostic-for-diagnostic with a declarative reference lexer, and checked against the partition invariants. Exhaustive within the stated bound; nothing is claimed beyond it.",
+            "Every string of at most k fragments over a 44-fragment alphabet chosen from the case analysis of the tokenizer, a 24-fragment core and a 20-fragment alphabet of characters whose grapheme cluster depends on what precedes them (plus de Bruijn texts with every fragment triple) is tokenized by the real code and compared token-for-token, range-for-range and diagnostic-for-diagnostic with a declarative reference lexer, and checked against the partition invariants. Exhaustive within the stated bound; nothing is claimed beyond it.",
             "Trusted: the reference lexer (engine/src/model/lexer.rs, 150 lines, states C09's token shapes and C10's line-break rule), the unicode-segmentation crate for grapheme boundaries. Characters outside the alphabet are not exercised.",
             "DESIGN.md 6/C09"),
 }
